@@ -102,6 +102,14 @@ func (o *Options) ServerOptions() []string {
 		sargv = append(sargv, argstr)
 	}
 
+	// -D above turns on both --devices and --specials on the remote side;
+	// correct that if only one of them is wanted (as rsync 3.x does).
+	if o.PreserveSpecials() && !o.PreserveDevices() {
+		sargv = append(sargv, "--specials")
+	} else if !o.PreserveSpecials() && o.PreserveDevices() {
+		sargv = append(sargv, "--no-specials")
+	}
+
 	// if (block_size) {
 	// 	if (asprintf(&arg, "-B%u", block_size) < 0)
 	// 		goto oom;
